@@ -104,6 +104,8 @@ def format_rules(an: Analysis, rep):
     rep.run(r104, an, rep, b2i, i2b)
     rep.run(r102_siblings, an, rep, expand)
     rep.run(r102_order, an, rep, expand)
+    rep.run(r102_shortcuts, an, rep, expand)
+    rep.run(r103_marker, an, rep, expand)
     rep.run(r105, an, rep)
     rep.run(r106, an, rep)
     rep.run(r107, an, rep)
@@ -192,6 +194,14 @@ def r101(an, rep, collapse, expand, fmt, is_lt, lim):
             f"collapse_items merges {sorted(set(zero_merges))[:2]}: expand_items never emits that as a split (its loops are strict, the remainder is non-zero), so a "
             f"real zero entry that CPython's assembler wrote after a full continuation entry is swallowed and the table does not re-encode byte for byte" if zero_merges
             else "an entry with a zero remainder after a boundary entry is kept as an entry of its own", config=fmt)
+    if is_lt:
+        # CPython continues a range WITHOUT a line with (rest, -128), a range with a line with (rest, 0): a (n, 0) entry after a full
+        # no-line entry starts a new range on the line before the gap
+        swallowed = [b for b in sorted(wantB) if any(ev(pr, Item(line_offset=0, bytecode_offset=6), Item(line_offset=None, bytecode_offset=b)) for pr in (p1, p2))]
+        rep.add("R10.1", f"a same-line entry after a full no-line entry is not its continuation [{fmt}]", not swallowed, w,
+                f"an entry (6, 0) after ({swallowed[0] if swallowed else 254}, no line) is merged into the no-line entry: the instructions it covers get no line although CPython gives "
+                f"them the line before the gap (and the table re-encodes as one no-line run)" if swallowed else
+                "(n, 0) after (254, no line) stays an entry of its own", config=fmt)
     rep.add("R10.1", f"address delta limit [{fmt}]", Bc == Be == wantB, w,
             f"collapse merges at address delta {sorted(Bc)}, expand emits {sorted(Be)}, CPython's limit is {sorted(wantB)}" if Bc == Be == wantB else
             f"[{fmt}] collapse_items merges a continuation entry when the previous address delta is in {sorted(Bc)} (over the format's domain 0..{lim['max_bytecode']}), "
@@ -658,3 +668,90 @@ def _loop_depth(f, node):
         if isinstance(cur, (ast.For, ast.While)):
             d += 1
     return d
+
+
+def r102_shortcuts(an, rep, expand):
+    """A shortcut that emits an entry without going through the split loops may only take values ONE entry of the format can carry
+    (lnotab: line -128..127, address 0..255; linetable: line -127..127 - -128 is the 'no line' marker - address 0..254)."""
+    pm = parent_map(expand.module)
+    n = 0
+    for st in ast.walk(expand.node):
+        if not isinstance(st, ast.If):
+            continue
+        # an If in the per-item loop (not inside the nested split functions) whose body appends an item and leaves the iteration
+        cur, nested = st, False
+        while id(cur) in pm and pm[id(cur)] is not expand.node:
+            cur = pm[id(cur)]
+            if isinstance(cur, (ast.FunctionDef, ast.While)):
+                nested = True
+        if nested:
+            continue
+        appends = [c for b in st.body for c in ast.walk(b) if isinstance(c, ast.Call) and isinstance(c.func, ast.Attribute) and c.func.attr == "append"]
+        leaves = any(isinstance(b, (ast.Continue, ast.Return)) for b in st.body)
+        if not appends or not leaves:
+            continue
+        n += 1
+        for fmt, is_lt in FORMATS.items():
+            lim = C.LINE_LIMITS[fmt]
+            consts = _expand_constants(expand, is_lt)
+            env0 = dict(consts["env"])
+            names = sorted({x.id for x in ast.walk(st.test) if isinstance(x, ast.Name)} - set(env0))
+            lvar = next((v for v in names if "line" in v), None)
+            bvar = next((v for v in names if "byte" in v or "addr" in v), None)
+            if lvar is None:
+                raise AnalysisError(f"{expand.qual}: shortcut `{norm_src(st.test)[:60]}` does not test a line delta")
+            bad = []
+            try:
+                for lv in list(range(-300, 301)):
+                    for bv in ((0, 1, 254, 255, 256, 600) if bvar else (0,)):
+                        e = dict(env0)
+                        e[lvar] = lv
+                        if bvar:
+                            e[bvar] = bv
+                        if feval(st.test, e):
+                            if not (lim["min_line"] <= lv <= lim["max_line"]) or (bvar and bv > lim["max_bytecode"]):
+                                bad.append((lv, bv))
+            except FevalError as ex:
+                raise AnalysisError(f"{expand.qual}: shortcut test `{norm_src(st.test)[:60]}` not evaluable: {ex}")
+            rep.add("R10.2", f"{expand.qual}::shortcut `{norm_src(st.test)[:40]}` stays within one entry [{fmt}]", not bad, loc(expand.module, st),
+                    f"taken only for line deltas in [{lim['min_line']}, {lim['max_line']}] and address deltas up to {lim['max_bytecode']}" if not bad else
+                    f"[{fmt}] the shortcut is taken for (line delta, address delta) = {bad[0]}: one entry of this format cannot carry it"
+                    + (" (-128 is the 'no line' marker of co_linetable: CPython splits a jump of exactly -128 lines into (-127, -1))" if bad[0][0] == -128 else ""), config=fmt)
+    rep.add("R10.2", f"{expand.qual}::shortcuts around the split loops examined", True, loc(expand.module, expand.node), f"{n} early emission(s)", nontrivial=False)
+
+
+def r103_marker(an, rep, expand):
+    """A run without a line that is split over several entries keeps the 'no line' marker in EVERY entry (CPython 3.10 assemble_line_range:
+    `ldelta = a->a_lineno < 0 ? -128 : 0` after a continuation entry): the carried line delta may be overwritten by a number only when
+    it is known not to be None."""
+    from .encode_model import guards_of
+    pm = parent_map(expand.module)
+    # the carried line-delta variable: assigned from <item>.line_offset at the top of the per-item loop
+    lvars = {n.targets[0].id for n in ast.walk(expand.node) if isinstance(n, ast.Assign) and isinstance(n.targets[0], ast.Name) and isinstance(n.value, ast.Attribute) and "line" in n.value.attr}
+    if not lvars:
+        raise AnalysisError(f"{expand.qual}: carried line delta not recognised")
+    n = 0
+    for st in ast.walk(expand.node):
+        if not (isinstance(st, ast.Assign) and isinstance(st.targets[0], ast.Name) and st.targets[0].id in lvars and isinstance(st.value, ast.Constant) and st.value.value is not None):
+            continue
+        n += 1
+        v = st.targets[0].id
+
+        def is_notnone(t):
+            return any(isinstance(c, ast.Compare) and len(c.ops) == 1 and isinstance(c.ops[0], ast.IsNot) and isinstance(c.left, ast.Name) and c.left.id == v
+                       and isinstance(c.comparators[0], ast.Constant) and c.comparators[0].value is None for c in ast.walk(t))
+        guarded = False
+        cur = st
+        while id(cur) in pm and pm[id(cur)] is not expand.node:
+            par = pm[id(cur)]
+            if isinstance(par, ast.If) and any(cur is b for b in par.body) and is_notnone(par.test):
+                guarded = True
+            if isinstance(par, ast.While) and is_notnone(par.test):
+                guarded = True
+            cur = par
+        rep.add("R10.3", f"{expand.qual}::`{norm_src(st)}` keeps the no-line marker", guarded, loc(expand.module, st),
+                f"only reached when `{v} is not None`" if guarded else
+                f"`{norm_src(st)}` overwrites the carried line delta also when it is None ('no line'): after the first continuation entry of a run without a line the remaining "
+                f"entries are written with a line delta of 0 instead of -128 - a no-line run of more than 254 bytes re-encodes as (254, -128)(rest, 0), i.e. with the previous line",
+                config="linetable")
+    rep.add("R10.3", f"{expand.qual}::overwrites of the carried line delta examined", True, loc(expand.module, expand.node), f"{n} constant store(s)", nontrivial=False)
